@@ -47,7 +47,25 @@ fn entry_at(b: &Blk, lay: &Layout, k: u32) -> u32 {
     }
 }
 
+/// How much of the rule set applies to a call.
+#[derive(Clone, Copy, PartialEq, Debug)]
+pub enum Rules {
+    /// fault-free call on a consistent volume: everything
+    Full,
+    /// the call during which an injected device fault fired, on a volume that was consistent
+    /// before it: region rules and "other objects untouched"; how far the call got before the
+    /// fault is unknown, so its own data range and its own directory slot are not judged
+    FaultedCall,
+    /// any call after a mutating call was cut short by a fault (medium possibly inconsistent with
+    /// the handles' in-memory state): only the region rules, which hold unconditionally
+    RegionOnly,
+}
+
 pub fn check_call(it: &Interp, ctx: &Ctx, info: &StepInfo) -> Option<Failure> {
+    check_call_with(it, ctx, info, Rules::Full)
+}
+
+pub fn check_call_with(it: &Interp, ctx: &Ctx, info: &StepInfo, rules: Rules) -> Option<Failure> {
     if info.log_end <= info.log_start {
         return None;
     }
@@ -236,6 +254,9 @@ pub fn check_call(it: &Interp, ctx: &Ctx, info: &StepInfo) -> Option<Failure> {
                         return Some(fail("fat32-reserved-bits-changed", format!("{}: high nibble of FAT entry {} changed ({:#010x} -> {:#010x})", what(r), cl, o, n)));
                     }
                     let was_free = fsck::classify(lay, o) == FatVal::Free;
+                    if rules == Rules::RegionOnly {
+                        continue;
+                    }
                     if was_free {
                         allocated_in_call.insert((vt.slot, cl));
                     } else if !(vp.allowed_chain.contains(&cl) || allocated_in_call.contains(&(vt.slot, cl))) {
@@ -247,7 +268,7 @@ pub fn check_call(it: &Interp, ctx: &Ctx, info: &StepInfo) -> Option<Failure> {
                 }
             } else {
                 let primary = cur.rd(lay.fat_start(0) + s);
-                if *new != primary {
+                if rules == Rules::Full && *new != primary {
                     return Some(fail("fat-copy-differs", format!("{}: FAT copy {} sector {} was written with contents that differ from the first copy", what(r), copy, s)));
                 }
             }
@@ -274,6 +295,10 @@ pub fn check_call(it: &Interp, ctx: &Ctx, info: &StepInfo) -> Option<Failure> {
         if cl >= lay.clusters + 2 {
             return Some(fail("past-last-cluster", format!("{}: the block lies beyond the last cluster ({}) of the volume", what(r), lay.clusters + 1)));
         }
+        if rules == Rules::RegionOnly {
+            cur.over.insert(b, *new);
+            continue;
+        }
         let fvp = FatView::new(&pre, lay);
         let pre_val = fvp.val(cl);
         if allocated_in_call.contains(&(vt.slot, cl)) {
@@ -288,6 +313,11 @@ pub fn check_call(it: &Interp, ctx: &Ctx, info: &StepInfo) -> Option<Failure> {
                 Some(Owner::File(p)) => {
                     // must be the file being written, and only inside the requested range
                     let idx = vp.target_file_chain.iter().position(|c| *c == cl);
+                    if rules == Rules::FaultedCall && idx.is_some() {
+                        // the target file's own clusters: how much was transferred before the fault is unknown
+                        cur.over.insert(b, *new);
+                        continue;
+                    }
                     let (Some(idx), Some((woff, _n, accepted))) = (idx, info.write) else {
                         if old != new {
                             return Some(fail("foreign-file-data-written", format!("{}: cluster {} belongs to {} which this call must not change (target {:?})", what(r), cl, p, vp.target_path)));
@@ -319,6 +349,9 @@ pub fn check_call(it: &Interp, ctx: &Ctx, info: &StepInfo) -> Option<Failure> {
         cur.over.insert(b, *new);
     }
     // directory slots: at most one slot per call, and it must be the call's own
+    if rules != Rules::Full {
+        return None;
+    }
     if !changed_slots.is_empty() {
         if kind == "Write" || kind == "Read" {
             let (b, o) = changed_slots.iter().next().unwrap();
